@@ -4,7 +4,7 @@ import common
 from common import Infra, run_tlc
 
 CFG_DEFAULTS = dict(kind="Map", mode="pure", forked=False, par=1, cap=0, inputs=[], fail=[], pred=[], n=0, freq=1, ops=1,
-                    interval=1, monoid="sum", step="succ", seed=1, gate=False, stderr=False, dup=[])
+                    interval=1, monoid="sum", step="succ", seed=1, gate=False, stderr=False, dup=[], unit_ns=0)
 
 
 def norm_cfg(c, nested=False):
